@@ -28,6 +28,8 @@ def run(ctx, L, tier):
     byte_size_header(ctx, L)
     M.size_formulas(ctx, L)
     M.dynamic_predicates(ctx, L)
+    from . import c20
+    c20.shared_state(ctx, L)        # no state that survives from one compiled file / call to the next (module, class, closure, default argument)
     return sorted(set(o.rule for o in L.obligations))
 
 
